@@ -98,6 +98,24 @@ theorem accepted_is_sealed (P : Prims) (hmac : ∀ k m, (P.mac k m).length = 16)
       ign = ((hdr &&& 0x80) != 0) ∧ c.length < 2 ^ 24 :=
   Lemmas.recvOne_sound P hmac d d' wire aad c rest ign h
 
+/-- consequence: if the stream at position `d` does NOT start with the encoding of the packet
+(hdr₀, c₀) the honest sender produced at this position (it was modified, truncated, replaced by a
+packet from another position, …) and the receiver nevertheless accepts something, then what it
+accepts is a valid sealing, at this position, of a DIFFERENT (header, contents) — i.e. a forgery
+of the MAC under a key the attacker does not know; it can never be delivered as an alteration of
+the honest packet "for free". -/
+theorem tampered_accept_is_forgery (P : Prims) (hmac : ∀ k m, (P.mac k m).length = 16) (d d' : Dir)
+    (wire aad c rest : List UInt8) (ign : Bool) (hdr₀ : UInt8) (c₀ : List UInt8)
+    (h : recvOne P d wire aad = .packet ign c d' rest)
+    (hne : ¬ ∃ r, wire = (encodePacket P d hdr₀ c₀ aad).1 ++ r) :
+    ∃ hdr : UInt8, (hdr, c) ≠ (hdr₀, c₀) ∧ wire = (encodePacket P d hdr c aad).1 ++ rest := by
+  obtain ⟨hdr, hw, _, _, _⟩ := Lemmas.recvOne_sound P hmac d d' wire aad c rest ign h
+  refine ⟨hdr, ?_, hw⟩
+  intro heq
+  injection heq with h1 h2
+  subst h1; subst h2
+  exact hne ⟨rest, hw⟩
+
 /-- the same for a whole accepted sequence: the consumed prefix of the stream is the in-order
 concatenation of the encodings of the delivered packets at positions 0,1,2,… -/
 theorem accepted_sequence_is_sealed (P : Prims) (hmac : ∀ k m, (P.mac k m).length = 16)
